@@ -27,3 +27,9 @@ def items(tier, seed):
         ['flat5s'], th, force='windows', fargs={'values': [1, 2, 3]},
         job_open={'dur': [0, 2], 'out': ['raise']}, top_open={}, k=1,
         bound=3 if th else 2)
+    yield from spaces.mk(
+        ['flat5s'], th, force='product',
+        fargs={'parts': [('windows', {'values': [1, 2]}),
+                         ('mods', {'alts': [[('top', 'verbose', True)]]})]},
+        job_open={'out': ['raise']}, top_open={}, k=1 if th else 0,
+        bound=2)
